@@ -107,3 +107,20 @@ contract(ES + '.factory', props=['C11'], params={'cls': 'opaque', 'current_memzo
              'implies(result is not None, len(result._string_bytes) >= 1 and '
              'elems(result._string_bytes)[len(result._string_bytes) - 1] == cstr_terminator)'],
          modifies=[], allocates=True, no_frame_check=True)
+
+# ---- .byte "..." / .cstr "..." : one value per character after escape processing, terminator for .cstr / .asciiz -------
+CHARS = 'unicode_unescape(value_of(data_match.group(3)))'
+contract(DL + '.factory', props=['C11'], blocks_only=True,
+         params={'line_id': 'LineIdentifier', 'current_memzone': 'MemoryZone?'},
+         locals={'values_list': 'list[union]', 'directive_str': 'str', 'data_match': 'match', 'converted_str': 'str'},
+         blocks={'string': dict(
+             where='from:converted_str = :3', locals={},
+             requires=['data_match.group(3) is not None'],
+             ensures=[
+                 f'forall(lambda j: implies(0 <= j and j < len({CHARS}), union_is_int(elems(values_list)[j])'
+                 f' and union_int(elems(values_list)[j]) == ord({CHARS}[j])))',
+                 f'implies(directive_str == ".cstr" or directive_str == ".asciiz", len(values_list) == len({CHARS}) + 1'
+                 f' and union_is_int(elems(values_list)[len({CHARS})])'
+                 f' and union_int(elems(values_list)[len({CHARS})]) == cstr_terminator)',
+                 f'implies(not (directive_str == ".cstr" or directive_str == ".asciiz"), len(values_list) == len({CHARS}))'],
+             modifies=[], allocates=True)})
